@@ -23,7 +23,15 @@ NEAR_OFFSET = [("(q0 - 1000.5) ** 6", {0: 1000.75}, lambda v: (v[0] - Fraction(2
                # integer measurement values (photon counts) and integer coefficients: the value is an exact, possibly large, integer
                ("q0 ** 4 - 3 * q1", {0: 60000, 1: 7}, lambda v: v[0] ** 4 - 3 * v[1]),
                ("q1 ** 3 * q0 + 1", {0: 5, 1: 3000000}, lambda v: v[1] ** 3 * v[0] + 1),
-               ("q2 * q2 * q2 - q0", {0: 3, 2: 2 ** 21}, lambda v: v[2] ** 3 - v[0])]
+               ("q2 * q2 * q2 - q0", {0: 3, 2: 2 ** 21}, lambda v: v[2] ** 3 - v[0]),
+               # coefficients of very small and very large magnitude (below machine epsilon, far above 2**53): a coefficient is a factor of
+               # the written formula whatever its size, and its register stays listed
+               ("1e-16 * q0 + q1", {0: 3e17, 1: 0.25}, lambda v: Fraction(1e-16) * v[0] + v[1]),
+               ("2.5e-17 * q1", {1: 4e16}, lambda v: Fraction(2.5e-17) * v[1]),
+               ("q0 * 1e-30 + q1 * 1e30", {0: 1e30, 1: 1e-30}, lambda v: Fraction(1e-30) * v[0] + Fraction(1e30) * v[1]),
+               ("q0 / 1e20 - q1", {0: 5e20, 1: 2}, lambda v: v[0] / Fraction(1e20) - v[1]),
+               ("(q0 + 1e-20) * q1 + 1e-18 * q2", {0: 0.0, 1: 1e20, 2: 3e18}, lambda v: (v[0] + Fraction(1e-20)) * v[1] + Fraction(1e-18) * v[2]),
+               ("1e-200 * q2 * q2", {2: 1e100}, lambda v: Fraction(1e-200) * v[2] * v[2])]
 
 
 def reg_expr(rng, regs, depth=2):
@@ -179,6 +187,10 @@ def run(tier, seed):
                     p = impl.loads(text)
                     o = p.operations[-1]
                     trf = (o["args"] + list(o["kwargs"].values()))[-1]
+                    if sorted(trf.regrefs) != sorted(vals):
+                        ok = False
+                        res.violate("the transform of %s lists registers %s, written are %s" % (expr, sorted(trf.regrefs), sorted(vals)), {"check": "near-offset", "text": text})
+                        continue
                     got = float(trf.func(*[vals[r] for r in trf.regrefs]))
                     want = float(exact({k: Fraction(v) for k, v in vals.items()}))
                     if abs(got - want) > 1e-9 * abs(want):
@@ -207,6 +219,9 @@ def replay(rep):
             if expr in inp["text"]:
                 o = impl.loads(inp["text"]).operations[-1]
                 trf = (o["args"] + list(o["kwargs"].values()))[-1]
+                if sorted(trf.regrefs) != sorted(vals):
+                    print("registers", sorted(trf.regrefs), "written", sorted(vals))
+                    return 1
                 got = float(trf.func(*[vals[r] for r in trf.regrefs]))
                 want = float(exact({k: Fraction(v) for k, v in vals.items()}))
                 print(got, want)
